@@ -119,3 +119,4 @@ fn c03_opts_short_ts_window() {
     assert!(m.mss == Some(1460));
     assert!(m.wsize == crate::window_size::detect_win_multiplicator(w, 1460, 5, true, &IpVersion::V4));
 }
+
